@@ -46,6 +46,18 @@ try:
     PINNED_LOCALS = _json.loads((_pathlib.Path(__file__).with_name('pinned_locals.json')).read_text())
 except (OSError, ValueError):
     PINNED_LOCALS = {}
+try:
+    PINNED_SHAPE = _json.loads((_pathlib.Path(__file__).with_name('pinned_shape.json')).read_text())
+except (OSError, ValueError):
+    PINNED_SHAPE = {}
+
+
+def function_shape(node):
+    """{gen: is a generator function, deco: decorator names, raises: number of raise statements} of a function definition."""
+    own = list(_own_walk(list(node.body)))
+    return {'gen': any(isinstance(n, (ast.Yield, ast.YieldFrom)) for n in own),
+            'deco': [(chain(d.func if isinstance(d, ast.Call) else d) or ['?'])[-1] for d in node.decorator_list],
+            'raises': sum(1 for n in own if isinstance(n, ast.Raise))}
 
 
 def fresh(prefix):
@@ -1103,3 +1115,6 @@ if __name__ == '__main__':
                 locs[f.key] = names
         pathlib.Path(__file__).with_name('pinned_locals.json').write_text(json.dumps(locs, indent=0, sort_keys=True))
         print(len(locs), 'local-name lists pinned')
+        shapes = {f.key: function_shape(f.orig if getattr(f, 'orig', None) is not None else f.node) for f in m.all_funcs()}
+        pathlib.Path(__file__).with_name('pinned_shape.json').write_text(json.dumps(shapes, indent=0, sort_keys=True))
+        print(len(shapes), 'function shapes pinned')
